@@ -196,7 +196,7 @@ def param_vectors(kind, rng, n, tier, many=False):
         vs = [{"ov": r.choice([0, 25]), "cut": c, "thr": t} for c in cuts for t in (1, 2, 4)]
         return vs if many else r.sample(vs, 2)
     if kind == "FMINDEX":
-        vs = [{"rrr": rr, "bs": bs, "bwt": bw} for rr in (0, 1) for bs in (4, 20, 32) for bw in (1, 2, 5, 16, 64)]
+        vs = [{"rrr": rr, "bs": bs, "bwt": bw} for rr in (0, 1) for bs in (4, 5, 7, 20, 32) for bw in (1, 2, 5, 16, 64)]
         return vs if many else r.sample(vs, 2)
     return [{}]
 
@@ -559,6 +559,28 @@ def c07_streams(tier, rng):
             return all_query_ops(kind, pv, S, r, cap=6) + [["save2"], ["resave", 1]]
         return history_ops(kind, pv, S, r, 40) + [["save2"], ["resave", 1]]
     out = [StreamSet("lifecycle", "asan", kind_cases(tier, rng, ALL_KINDS, fn, battery=bat, name="m"), timeout=60)]
+    # size sweep: bit arrays are allocated in 32/64-bit words, so defects sit at sizes that are 0, -1 or -3
+    # modulo the word size; one small dictionary for every residue of its total byte size (sum of len+1) mod 64
+    sweep = []
+    rs = rng.fork("sweep")
+    for L in range(40, 104):
+        body = sorted(set(bytes(rs.choice(gen.ALPHABETS[26]) for _ in range(rs.range(3, 7))) for _ in range(5)))
+        used = sum(len(x) + 1 for x in body)
+        pad = L - used - 1
+        if pad < 1:
+            continue
+        S = sorted(set(body + [bytes([0x7a]) * pad]))
+        if sum(len(x) + 1 for x in S) != L:
+            continue
+        for kind, pv in (("FMINDEX", {"rrr": 0, "bs": 4, "bwt": 2}), ("FMINDEX", {"rrr": 1, "bs": 5, "bwt": 3}), ("XBW", {}),
+                         ("HASHHF", {"ov": 25}), ("HASHRPDAC", {"ov": 25, "hs": int(len(S) * 1.25)}), ("RPDAC", {}), ("HTFC", {"b": 3}),
+                         ("RPFC", {"b": 3}), ("PFC", {"b": 3})):
+            qs = [["loc" if kind in EXACT_ID_KINDS else "rt", hx(x)] for x in S]
+            ops = qs + [["exts"], ["reload", "own", 1]] + qs + [["exts"], ["resave", 1]]
+            if kind in SUBSTR_KINDS:
+                ops.insert(len(qs), ["sub", hx(S[0][:2])])
+            sweep.append(("sw%d_%s_%s" % (L, kind, pv.get("rrr", "")), "dict", kind, pv, S, ops))
+    out.append(StreamSet("sizesweep", "asan", sweep, timeout=60))
     # growth paths: MEMALLOC overridden through the hook so that every doubling is taken with small inputs
     growk = FC_KINDS + ["HASHHF"]
     # large buckets of poorly compressible strings: many Re-Pair / Huffman symbols per bucket relative to maxlength
